@@ -301,6 +301,21 @@ func errValClass(r *ssa.Return, v ssa.Value, depth int) string {
 			}
 		}
 	case *ssa.Call, *ssa.Extract:
+		// a library helper that only ever returns non-nil errors (error decorators)
+		if call, isCall := x.(*ssa.Call); isCall {
+			if callee := call.Call.StaticCallee(); callee != nil && callee.Blocks != nil && callee.Pkg != nil &&
+				strings.HasPrefix(callee.Pkg.Pkg.Path(), M) && callee.Signature.Results().Len() == 1 && depth < 4 {
+				all := true
+				for _, cr := range ir.Returns(callee) {
+					if errValClass(cr, cr.Results[0], depth+1) != "fail" {
+						all = false
+					}
+				}
+				if all && len(ir.Returns(callee)) > 0 {
+					return "fail"
+				}
+			}
+		}
 		// an error variable returned as is: failing iff the block is behind its non-nil edge
 		fn := r.Parent()
 		for _, ce := range ir.DominatingConds(fn, r.Block()) {
